@@ -16,6 +16,9 @@
 // Second case kind (roots.go): root worlds -- whole trees (root alone / root + changes, the root honest or mutated)
 // delivered through every construction path (eager and deferred storage + the tree builders, ValidateRawTreeDefault,
 // ValidateFilterRawTree).
+//
+// Third case kind (race.go): race worlds -- AddRawChanges calls during which a concurrent ACL writer adds the next
+// records of the log at every lock-free point the call offers (deterministic, every distinct schedule explored).
 package main
 
 import (
